@@ -2,6 +2,7 @@ import Driver.Codec
 import Cirbo.Model.Eval
 import Cirbo.Model.Checkers
 import Cirbo.Model.Traverse
+import Cirbo.Model.Tseytin
 /-! `cirbo_model`: one JSON request per input line, one JSON response per output line. -/
 open Lean Cirbo Driver
 
@@ -74,6 +75,15 @@ def handle (j : Json) : Except String Json := do
   | "cycle_check" => do
     let c ← getCircuit j
     pure (ofExcept Json.bool (hasCycleCheck c))
+  | "tseytin" => do
+    let c ← getCircuit j
+    let outs := match j.getObjVal? "outs" with
+      | .ok (Json.arr xs) => some (xs.toList.filterMap (fun x => x.getNat?.toOption))
+      | _ => none
+    pure (ofExcept (fun r => Json.mkObj [
+      ("cnf", Json.arr (r.1.map (fun cl => Json.arr (cl.map (fun l => Json.num (Lean.JsonNumber.fromInt l))).toArray)).toArray),
+      ("lits", Json.arr (r.2.map (fun p => Json.arr #[Json.str p.1, Json.num (Lean.JsonNumber.fromInt (Int.ofNat p.2))])).toArray)])
+      (tseytin c outs))
   | "optable_issues" => pure (ok (jStrs opTableIssues))
   | "check_wf" => do
     let c ← getCircuit j
